@@ -186,16 +186,23 @@ func loadEngine(repo string, patterns []string) (*Engine, error) {
 	if e.modulePath == "" {
 		e.modulePath = "github.com/elementsproject/peerswap"
 	}
-	// build SSA for module packages only (bodies of dependencies are never followed)
-	for _, sp := range prog.AllPackages() {
-		if strings.HasPrefix(sp.Pkg.Path(), e.modulePath) {
-			sp.Build()
-		}
-	}
 	dirs := map[string]string{}
 	for _, p := range pkgs {
 		if len(p.GoFiles) > 0 {
 			dirs[p.PkgPath] = filepath.Dir(p.GoFiles[0])
+		}
+	}
+	// build SSA for module packages only (bodies of dependencies are never followed)
+	for _, sp := range prog.AllPackages() {
+		if strings.HasPrefix(sp.Pkg.Path(), e.modulePath) {
+			// `//@ debugnames` in a package's contract file: loop invariants of that package
+			// may name local variables (go/ssa debug references map them to SSA values)
+			if d, ok := dirs[sp.Pkg.Path()]; ok {
+				if b, err := os.ReadFile(filepath.Join(d, "zz_verif_contracts.go")); err == nil && strings.Contains(string(b), "\n//@ debugnames") {
+					sp.SetDebugMode(true)
+				}
+			}
+			sp.Build()
 		}
 	}
 	e.cs, err = loadContracts(repo, dirs)
